@@ -486,3 +486,27 @@ m('C18', 'Survey.select parameter renamed', SURV,
   'C18.Q2')
 n('C18', 'parser: int key list reordered', PARSER,
   "        for key in ['tol', 'tol_gradient']:", "        for key in ['tol_gradient', 'tol']:")
+
+# ------------------------------------------------------------------- C20
+m('C20', 'ifreq_compute: >= -> >', TIME,
+  "        return ((self.freq_coarse >= self.fmin) &",
+  "        return ((self.freq_coarse > self.fmin) &", 'C20.F1')
+m('C20', 'ifreq_extrapolate: < -> <=', TIME,
+  "        return self.freq_required < self.fmin",
+  "        return self.freq_required <= self.fmin", 'C20.F1')
+m('C20', 'interpolate: extra store into out', TIME,
+  "            out[self.ifreq_interpolate] = fdata\n",
+  "            out[self.ifreq_interpolate] = fdata\n            out[-1] = fdata[-1]\n",
+  'C20.F3')
+m('C20', 'interpolate: pass-through scaled', TIME,
+  "            out[self.ifreq_interpolate] = fdata\n",
+  "            out[self.ifreq_interpolate] = fdata*1.0000001\n", 'C20.F3')
+m('C20', 'freq2time: hands freq_compute to the transform', TIME,
+  "inp_data[:, None], np.array(off), freq=self.freq_required,",
+  "inp_data[:, None], np.array(off), freq=self.freq_compute,", 'C20.F4')
+m('C20', 'freq_extrapolate indexes the coarse vector', TIME,
+  "        return self.freq_required[self.ifreq_extrapolate]",
+  "        return self.freq_coarse[self.ifreq_extrapolate]", 'C20.F2')
+n('C20', 'ifreq_extrapolate: operands swapped', TIME,
+  "        return self.freq_required < self.fmin",
+  "        return self.fmin > self.freq_required")
